@@ -180,9 +180,14 @@ def verify_function(table, reg, qual, cls, props, timeout_ms=None):
             exc_allowed_by = {}
             exc_allowed = exc_frame(c.on_raise)
         n_normal = n_raise = 0
+        n_normal_dead = 0
         for s, ctl in outs:
             if ctl[0] in ("next", "return"):
                 n_normal += 1
+                # anti-vacuity: a normal exit whose path condition is contradictory (e.g. through contradictory assumed
+                # clauses of callee contracts) would "prove" anything
+                if prover.sat(s.pc, 2000) == "unsat":
+                    n_normal_dead += 1
                 v = ctl[1] if ctl[0] == "return" else mk_none()
                 result = None
                 if c.returns.kind != "none":
@@ -250,6 +255,10 @@ def verify_function(table, reg, qual, cls, props, timeout_ms=None):
             else:
                 raise Unsupported("loop control escaping function")
         res["paths"] = {"normal": n_normal, "raise": n_raise}
+        res["normal_exits_unreachable"] = n_normal_dead
+        if n_normal and n_normal_dead == n_normal:
+            # every returning path is contradictory: the postconditions were discharged vacuously
+            res["vacuous"] = True
         # determinism effect: a function declared deterministic must not (transitively through
         # contracts) use a primitive whose result varies between interpreter processes
         if c.effects == "deterministic":
